@@ -191,7 +191,8 @@ def check_config(ctx, F, tag):
                     found.add(b.name)
         ctx.count("constructors-" + TYPES[adt] + tag, len(found))
         extra = sorted(found - allowed)
-        ctx.ob("C11.R3.who-may-construct", TYPES[adt] + tag, loc(F.adt(adt)["span"]), not extra and found, "who-may-construct",
+        import inline
+        ctx.ob("C11.R3.who-may-construct", TYPES[adt] + tag, loc(F.adt(adt)["span"]), (not extra and bool(found)) if not inline.only_new(extra) else None, "who-may-construct",
                "%s aggregates in %s; outside the builder/loader funnel: %s" % (TYPES[adt], sorted(x.split("::")[-1] + "@" + x.split(" ")[0][-12:] for x in found), extra))
         ctx.floor("constructors-" + TYPES[adt] + tag, 2)
     # builder call decompositions of the same run list give the same vector only if the builder's tied fields move together
